@@ -18,4 +18,19 @@ PROPS = {
         diffs=[], oracle=None, level="proof",
         assumptions=[],
     ),
+    "C18": dict(
+        components=["pool"],
+        lean=["PhpVerif.Props.C18"],
+        diffs=["pool"], oracle=None, level="proof",
+        assumptions=["a Go pointer &block[i] is modelled as (ordinal of the block allocation, i); distinct make() results do not alias (Go memory model)",
+                     "the harness names real pointers through a memory-layout mirror of the Pool struct (block slice header, off)"],
+    ),
+    "C09": dict(
+        components=["version", "facts-version"],
+        lean=["PhpVerif.Props.C09"],
+        diffs=["version"], oracle="C09", level="proof",
+        assumptions=["uint64 segments modelled as Nat below 2^64 (Compare uses only < and >)",
+                     "strconv.ParseUint base 10 modelled: non-empty, all ASCII digits, value < 2^64",
+                     "version_class rests on T-facts: the pipeline reads the version only in the two InRange dispatches and GreaterOrEqual(7.3)"],
+    ),
 }
